@@ -87,6 +87,8 @@ type loopInfo struct {
 	dec     T
 	hasDec  bool
 	backSts []*State
+	frameIn    *State
+	frameHeaps []string
 }
 
 const maxInlineDepth = 6
@@ -400,6 +402,26 @@ func (fr *frame) enterLoop(h *ssa.BasicBlock, edges []edgeState, ord int) (*Stat
 	for _, cl := range invs {
 		vc.assume(implies(gIn, vc.evalHyp(cl.Expr, envH, gIn)))
 	}
+	if con != nil {
+		for _, cl := range con.Clauses {
+			if cl.Kind != "loopframe" || cl.Loop != ord {
+				continue
+			}
+			except := map[string]bool{}
+			for _, x := range strings.Fields(cl.Text) {
+				except[x] = true
+			}
+			li.frameIn = stIn.clone()
+			for _, k := range names {
+				if !(mod == nil || mod[k]) || vc.ghost[k] || except[k] || !strings.HasPrefix(vc.heapSort[k], "(Array Int") {
+					continue
+				}
+				li.frameHeaps = append(li.frameHeaps, k)
+				hin := vc.heapGet(stIn, k)
+				vc.assume("(forall ((fr_r Int)) (! (=> (and (<= 0 fr_r) (< fr_r alloc@0)) (= (select " + hst.heaps[k] + " fr_r) (select " + hin + " fr_r))) :pattern ((select " + hst.heaps[k] + " fr_r))))")
+			}
+		}
+	}
 	if len(decs) > 0 {
 		li.dec = vc.evalSpec(decs[0].Expr, envH).t
 		li.hasDec = true
@@ -442,6 +464,12 @@ func (fr *frame) backEdge(h *ssa.BasicBlock, from *ssa.BasicBlock, st *State, g 
 				vc.oblige("inv", fmt.Sprintf("loop%d.decreases", li.ord), g, and(le("0", li.dec), lt(d, li.dec)))
 			}
 		}
+	}
+	// loop frame: cells that existed at loop entry are unchanged at the back edge
+	for _, k := range li.frameHeaps {
+		sk := vc.fresh("lfr_"+k, "Int")
+		vc.oblige("inv", fmt.Sprintf("loop%d.frame.%s.preserve", li.ord, k), and(g, le("0", sk), lt(sk, "alloc@0")),
+			eq(sel(vc.heapGet(st, k), sk), sel(vc.heapGet(li.frameIn, k), sk)))
 	}
 	// record which heaps the body modified (for the discovery pass)
 	if vc.dry {
@@ -754,6 +782,9 @@ func (fr *frame) execValue(v ssa.Value, cur *State) SV {
 		idx := fr.val(x.Index).t
 		switch u := x.X.Type().Underlying().(type) {
 		case *types.Slice:
+			if _, isNum := isNumeral(idx); !isNum && len(idx) < 120 {
+				vc.progIdx = append(vc.progIdx, idx)
+			}
 			fr.safe("bounds", and(le("0", idx), lt(idx, app("s_len", base.t))))
 			return SV{t: "interior", typ: x.Type(), loc: &Loc{Heap: vc.arrHeap(u.Elem()), Ref: app("s_ref", base.t), Idx: add(app("s_off", base.t), idx), Root: u.Elem()}}
 		case *types.Pointer:
